@@ -343,20 +343,26 @@ def copy(source, dest, verbose=0):
         if verbose:
             print(_ts)
 
-        dest.tpc_begin(transaction, tid, transaction.status)
-        for r in transaction:
-            oid = r.oid
-            if verbose:
-                print(oid_repr(oid), r.version, len(r.data))
-            if restoring:
-                dest.restore(oid, r.tid, r.data, r.version,
-                             r.data_txn, transaction)
-            else:
-                pre = preget(oid, None)
-                dest.store(oid, pre, r.data, r.version, transaction)
-                preindex[oid] = tid
+        try:
+            dest.tpc_begin(transaction, tid, transaction.status)
+            for r in transaction:
+                oid = r.oid
+                if verbose:
+                    print(oid_repr(oid), r.version, len(r.data))
+                if restoring:
+                    dest.restore(oid, r.tid, r.data, r.version,
+                                 r.data_txn, transaction)
+                else:
+                    pre = preget(oid, None)
+                    dest.store(oid, pre, r.data, r.version, transaction)
+                    preindex[oid] = tid
 
-        dest.tpc_vote(transaction)
+            dest.tpc_vote(transaction)
+        except BaseException:
+            # Do not leave the destination inside the transaction
+            # (with its commit lock held) when copying fails.
+            dest.tpc_abort(transaction)
+            raise
         dest.tpc_finish(transaction)
 
 
